@@ -76,6 +76,8 @@ def akai_sites(case: Dict[str, Any]) -> List[Site]:
 
 def roland_sites(case: Dict[str, Any]) -> List[Site]:
     img, ncl = case["img"], case["nclusters"]
+    spread = bool(img.get("spread"))
+    sl = (lambda k: k if (not spread or k == 0) else k + 4)       # logical number -> record index (see writers/roland.py)
     sites: List[Site] = []
     used = sorted({c for c, _ in case["fat"]})
     links = list(range(2, ncl + 1))
@@ -92,20 +94,24 @@ def roland_sites(case: Dict[str, Any]) -> List[Site]:
         for j in range(min(3, 64)):
             sites.append(Site(f"vol{i}.perf_ptr{j}", [o + 2 * j, o + 2 * j + 1], 2, ptrs))
         sites.append(Site(f"vol{i}.dirname0", [A["volume_dir"] + 32 * i], 1, [0x80, 0xFF, 0]))
-    for i, p in enumerate(img["perfs"]):
+    for i0, p in enumerate(img["perfs"]):
+        i = sl(i0)
         o = A["performance_param"] + 0x200 * i + field("roland_performance_param", "patch_list")["off"]
         for j in range(3):
             sites.append(Site(f"perf{i}.patch_ptr{j}", [o + 2 * j, o + 2 * j + 1], 2, ptrs))
         sites.append(Site(f"perf{i}.dir.type", [A["performance_dir"] + 32 * i + 16], 1, [0, 0x40, 0x44, 0xFF]))
-    for i, p in enumerate(img["patches"]):
+    for i0, p in enumerate(img["patches"]):
+        i = sl(i0)
         o = A["patch_param"] + 0x200 * i + field("roland_patch_param", "partial_list")["off"]
         for j in (0, 1, 87):
             sites.append(Site(f"patch{i}.partial_ptr{j}", [o + 2 * j, o + 2 * j + 1], 2, ptrs))
-    for i, p in enumerate(img["partials"]):
-        for sl in ("sample_1", "sample_2", "sample_4"):
-            o = A["partial_param"] + 0x80 * i + field("roland_partial_param", sl)["off"]
-            sites.append(Site(f"partial{i}.{sl}", [o, o + 1], 2, ptrs))
-    for i, s in enumerate(img["samples"]):
+    for i0, p in enumerate(img["partials"]):
+        i = sl(i0)
+        for slot in ("sample_1", "sample_2", "sample_4"):
+            o = A["partial_param"] + 0x80 * i + field("roland_partial_param", slot)["off"]
+            sites.append(Site(f"partial{i}.{slot}", [o, o + 1], 2, ptrs))
+    for i0, s in enumerate(img["samples"]):
+        i = sl(i0)
         d = A["sample_dir"] + 32 * i
         sites.append(Site(f"sample{i}.dir.fat_entry", [d + 28, d + 29], 2, uniq([0, 1, 2] + used + [ncl, 65535])))
         sites.append(Site(f"sample{i}.dir.name0", [d], 1, [0x80, 0]))
